@@ -240,7 +240,7 @@ def select_run(da, case, run: dict, run_index: int):
     # every coordinate that is present must carry this run's value
     for k, v in (run if case["mode"] != "sequential" else run).items():
         nm = names[k]
-        if nm in sel.coords and k not in VECTOR_KEYS:
+        if nm in sel.coords and k not in VECTOR_KEYS and np.ndim(sel[nm].values) == 0:
             got = sel[nm].values.item()
             if (str(got) != str(v)) if isinstance(v, str) else (float(got) != float(v)):
                 raise LookupError(f"run {run_index}: coordinate {nm} is {got}, the run was made with {v}")
